@@ -13,6 +13,11 @@ def PCT(n):
     return " /* 100%d %s %% {{.}} \\n */" if n["blk"] % 3 == 0 else ""
 
 
+def PCTX(n):
+    """... and, in code rather than in a comment, a remainder operator (a stray printf verb makes the file unparsable)"""
+    return "+0*(9%4)" if n["blk"] % 3 == 0 else ""
+
+
 class Gram:
     """One test group: rules[i] is the root node id (1-based) of rule i+1."""
 
@@ -233,11 +238,11 @@ class Gram:
         if k == "choice":
             return par(" / ".join(self.render(c, 1) for c in n["kids"]))
         if k == "action":
-            return par(self.render(n["kids"][0], 2) + " { return act(%s, %d, []any{%s}) }" % (self.recv, n["blk"], a + PCT(n)))
+            return par(self.render(n["kids"][0], 2) + " { return act(%s, %d%s, []any{%s}) }" % (self.recv, n["blk"], PCTX(n), a + PCT(n)))
         if k == "state":
-            return "#{ return st(%s, %d, []any{%s}) }" % (self.recv, n["blk"], a + PCT(n))
+            return "#{ return st(%s, %d%s, []any{%s}) }" % (self.recv, n["blk"], PCTX(n), a + PCT(n))
         if k in ("andcode", "notcode"):
-            return ("&" if k == "andcode" else "!") + "{ return pr(%s, %d, []any{%s}) }" % (self.recv, n["blk"], a + PCT(n))
+            return ("&" if k == "andcode" else "!") + "{ return pr(%s, %d%s, []any{%s}) }" % (self.recv, n["blk"], PCTX(n), a + PCT(n))
         if k == "label":
             return par(n["lab"] + ":" + self.render(n["kids"][0], 4))
         if k in ("and", "not"):
